@@ -892,7 +892,8 @@ impl CompressionBmi2Dispatcher {
                     let mut remaining_mask = mask;
                     
                     while remaining_mask != 0 {
-                        if packed_data & remaining_mask & (!remaining_mask + 1) != 0 {
+                        // symbols are 32 bits wide: higher mask bits are dropped like the PEXT path's `as u32`
+                        if bit_idx < 32 && packed_data & remaining_mask & (!remaining_mask + 1) != 0 {
                             result |= 1u32 << bit_idx;
                         }
                         bit_idx += 1;
